@@ -7,7 +7,7 @@ import FlowCal
 def spec_rich(rng, N=None, D=None, datatype='I', log_channels=None, time_channel=False, res=None):
     D = D or rng.randrange(2, 6)
     N = rng.randrange(0, 30) if N is None else N
-    names = ['FSC-H', 'SSC-H', 'FL1-H', 'FL2-H', 'FL3-H', 'FL4-H'][:D]
+    names = (['FSC-H', 'SSC-H', 'FL1-H', 'FL2-H', 'FL3-H', 'FL4-H'] + ['FL%d-H' % k for k in range(5, 20)])[:D]
     if time_channel and D >= 2:
         names[-1] = rng.choice(['Time', 'TIME', 'time'])
     widths = [16] * D if datatype == 'I' else [32] * D
@@ -26,7 +26,7 @@ def spec_rich(rng, N=None, D=None, datatype='I', log_channels=None, time_channel
     extra = []
     for c in range(D):
         if rng.random() < 0.6:
-            extra.append(['$P%dG' % (c + 1), rng.choice(['1', '2', '0.5', '8', '1.0'])])
+            extra.append(['$P%dG' % (c + 1), rng.choice(['1', '2', '0.5', '8', '1.0', '2.5E+00', '+2.0', '1e1', '5.0e-01'])])
         if rng.random() < 0.6:
             extra.append(['$P%dV' % (c + 1), str(rng.choice([450, 500.5, 650, 700]))])
         if rng.random() < 0.5:
